@@ -87,7 +87,9 @@ def assignments(rng, names, count):
     upper = [x for x in names if x[0].isupper() and x not in KEYWORDS]
     prims = ["bool", "u8", "str", "usize", "isize", "u64", "char"]
     fam = [("x", "_x", "__x"), ("_x", "x", "_s_x"), ("_s_x", "_o_x", "x"), ("_d_x", "_s_x", "__s_x"), ("v_x", "x", "_x"), ("_0", "__0", "_1"),
-           ("other", "state", "f"), ("builder", "arg", "size"), ("data", "self_data", "other_data"), ("source", "educe__f", "field")]
+           ("other", "state", "f"), ("builder", "arg", "size"), ("data", "self_data", "other_data"), ("source", "educe__f", "field"),
+           # raw identifiers: a binder built from the field's name as text (`_s_r#type`) is not an identifier
+           ("r#type", "r#match", "r#loop"), ("r#fn", "x", "r#ref")]
     out = []
     for i in range(count):
         if i < len(fam):
@@ -226,7 +228,7 @@ def rename(line, n):
         back[v] = NEUTRAL[k]
     for s in "SETDU":
         back[n["TY"] + s] = NEUTRAL["TY"] + s
-    return head + re.sub(r"[A-Za-z_][A-Za-z0-9_]*", lambda m: back.get(m.group(0), m.group(0)), line)
+    return head + re.sub(r"(?:r#)?[A-Za-z_][A-Za-z0-9_]*", lambda m: back.get(m.group(0), back.get("r#" + m.group(0), m.group(0))), line)
 
 
 def compile_(src, out, so, extra):
